@@ -25,6 +25,11 @@ def parseFrom (tok : String) : Option From :=
   | [db, rp, nm, wh] => do
     let w ← if wh == "-" then pure none else (do pure (some (← wh.toNat?)))
     pure { db := (← unesc db), rp := (← unesc rp), name := (← unesc nm), wh := w }
+  | [db, rp, nm, wh, _opts, par] => do
+    -- `_opts` (groupBy / truncate / round) do not take part in the routing; the harness checks them on the recorded points
+    let w ← if wh == "-" then pure none else (do pure (some (← wh.toNat?)))
+    let pa ← if par == "-" then pure none else (do pure (some (← par.toNat?)))
+    pure { db := (← unesc db), rp := (← unesc rp), name := (← unesc nm), wh := w, parent := pa }
   | _ => none
 
 def parseFroms (tok : String) : Option (List From) := (tok.splitOn ",").mapM parseFrom
@@ -38,6 +43,31 @@ def parsePoint (tok : String) : Option RawPoint :=
   | _ => none
 
 def parsePoints (tok : String) : Option (List RawPoint) := (tok.splitOn ",").mapM parsePoint
+
+/-- lines of an HTTP body: `!k` = a malformed line -/
+def parseLines (tok : String) : Option (List (Option RawPoint)) :=
+  (tok.splitOn ",").mapM (fun x => if x.startsWith "!" then some none else (parsePoint x).map some)
+
+/-- ids a sink recorded (suffixes `!t !d !c` dropped); `none` when a token is not an id -/
+def parseObsIds (toks : List String) : List Nat :=
+  match toks with
+  | [t] => if t == "-" then [] else (t.splitOn ",").filterMap (fun x => ((x.splitOn "!").headD "").toNat?)
+  | _ => []
+
+/-- One write order for the points of concurrent writers that keeps every writer's own order and agrees with the relative order in
+which every sink recorded them (`none`: there is none — no single order explains what the sinks saw). Kahn's algorithm. -/
+def mergeOrder (writers : List (List Nat)) (sinkSeqs : List (List Nat)) : Option (List Nat) := Id.run do
+  let nodes := writers.flatten
+  let restrict (l : List Nat) := l.filter (nodes.contains ·)
+  let chains := writers ++ sinkSeqs.map restrict
+  let pairs : List (Nat × Nat) := chains.flatMap (fun c => c.zip (c.drop 1))
+  let mut remaining := nodes
+  let mut out : List Nat := []
+  for _ in [0:nodes.length] do
+    match remaining.find? (fun n => !pairs.any (fun pr => pr.2 == n && pr.1 != n && remaining.contains pr.1)) with
+    | some n => out := n :: out; remaining := remaining.filter (· != n)
+    | none => return none
+  return some out.reverse
 
 def parseOp (ts : List String) : Option Op :=
   match ts with
@@ -103,6 +133,13 @@ def noteWrite (st : St) (db rp : String) (pts : List RawPoint) : St := Id.run do
       if wild.any (fun x => !exact.any (fun y => y.1 == x.1)) then st := addBr st "fork-both-distinct-tasks"
     if exact.length + wild.length ≥ 3 then st := addBr st "fork-3+-entries"
     for x in exact ++ wild.filter (fun x => !exact.any (fun y => y.1 == x.1)) do
+      for i in [0:x.2.task.froms.length] do
+        match x.2.task.froms[i]? with
+        | some f =>
+          if let some j := f.parent then
+            st := addBr st (if sinkGets x.2.task i p then "chained-from-gets"
+                            else if sinkGets x.2.task j p then "chained-from-own-reject" else "chained-from-parent-reject")
+        | none => pure ()
       for f in x.2.task.froms do
         let b := matchBranch f p
         st := addBr st b
@@ -118,6 +155,7 @@ def noteOp (st : St) (op : Op) : St :=
     let st := if d.keys.eraseDups.length < d.keys.length then addBr st "start-duplicate-keys" else st
     let st := if d.froms.any (·.name == "") && d.froms.any (·.name != "") then addBr st "start-exact+wild" else st
     let st := if d.dbrps.any (·.2 == "") then addBr st "start-empty-rp-declared" else st
+    let st := if d.froms.any (·.parent.isSome) then addBr st "start-chained-from" else st
     let st := if st.running.length ≥ 1 && !st.hist.isEmpty then { st with otherOpBetween := true } else st
     st
   | .startfail d =>
@@ -143,8 +181,56 @@ def expectObs (st : St) (op : Op) : String :=
 def judge (_id : String) (lines : Array String) : Verdict := Id.run do
   let some cap := edgeCap? | return .badop "the edge capacity was not recognised in the source (Kap/Gen/C02Cap.lean)"
   let mut st : St := {}
+  -- what every sink recorded (needed to linearise concurrent writers)
+  let sinkSeqs : List (List Nat) := lines.toList.filterMap (fun l =>
+    let (opT, obs) := splitObs (tokens l)
+    match opT with
+    | ["final", _, _] => some (parseObsIds obs)
+    | _ => none)
   for l in lines do
     let (opT, obs) := splitObs (tokens l)
+    -- HTTP request / concurrent writers ↦ the WritePoints history they amount to
+    let mut opT := opT
+    let mut obs := obs
+    match opT with
+    | ["hwrite", db, rp, _prec, ls] =>
+      let some db' := unesc db | return .badop l
+      let some rp' := unesc rp | return .badop l
+      let some ls := parseLines ls | return .badop l
+      let (status, _) := serveWriteLine db' rp' ls
+      let want := if status == 204 then "ok" else s!"err:{status}"
+      st := addBr st (if ls.any (·.isNone) then "http-rejected-malformed-line" else if db' == "" then "http-rejected-no-db"
+                      else if rp' == "" then "http-accepted-no-rp" else "http-accepted")
+      if obs != [want] && st.hung.isNone then
+        st := { st with hung := some s!"hwrite: model {want} observed {" ".intercalate obs}" }
+      -- the history follows what the implementation ANSWERED: an accepted request wrote its (well-formed) points, a rejected one nothing
+      if obs == ["ok"] then
+        if ls.all (·.isNone) then continue
+        let pts := ",".intercalate ((ls.filterMap id).map (fun (r : RawPoint) =>
+          s!"{r.id}|{esc r.name}|{if r.pass.isEmpty then "-" else ";".intercalate (r.pass.map toString)}|0|%"))
+        opT := ["write", db, rp, pts]
+      else continue
+    | ["cwrite", db, rp, ws] =>
+      let some writers := (ws.splitOn "&").mapM parsePoints | return .badop l
+      st := addBr st "concurrent-writers"
+      if obs != ["ok"] then
+        if st.hung.isNone then st := { st with hung := some s!"cwrite: model ok observed {" ".intercalate obs}" }
+        continue
+      match mergeOrder (writers.map (·.map (·.id))) sinkSeqs with
+      | none =>
+        return .specfail "concurrent-writers-one-order" s!"no single write order keeps every writer's order and explains all sinks: {ws}"
+      | some order =>
+        let all := writers.flatten
+        let merged := order.filterMap (fun i => all.find? (·.id == i))
+        if writers.length ≥ 2 && merged.map (·.id) != all.map (·.id) then st := addBr st "concurrent-writers-interleaved"
+        let pts := ",".intercalate (merged.map (fun (r : RawPoint) =>
+          s!"{r.id}|{esc r.name}|{if r.pass.isEmpty then "-" else ";".intercalate (r.pass.map toString)}|0|%"))
+        opT := ["write", db, rp, pts]
+    | ["race", "check", _] =>
+      if obs != ["0"] then return .specfail "no-data-race" s!"the Go race detector reported {" ".intercalate obs} data race(s) in the routing path"
+      st := addBr st "race-detector-clean"
+      continue
+    | _ => pure ()
     match opT with
     | "cfg" :: rp :: _ =>
       let some rp := unesc rp | return .badop l
